@@ -966,7 +966,7 @@ fn blocked_case(rep: &mut Report, prop: &str, args: &Args, cs: u64) {
         5 | 7 => Some(*rng.pick(&[255usize, 256, 257, 1000, 1024, 1025, 1500, 2048, 5000])),
         6 if rng.chance(1, 4) => Some(*rng.pick(&[65535usize, 65536, 65537])),
         // "too large to pre-allocate" thresholds sit at round numbers (2^20 ...)
-        8 if rng.chance(1, 10) => Some(*rng.pick(&[1usize << 20, (1 << 20) + 1, 1_000_000, 3_000_000])),
+        8 if rng.chance(1, if args.flag("big") { 10 } else { 24 }) => Some(if args.flag("big") { *rng.pick(&[1usize << 20, (1 << 20) + 1, 1_000_000, 3_000_000]) } else { *rng.pick(&[1usize << 20, (1 << 20) + 1]) }),
         _ => Some(rng.range(1, 12) as usize),
     };
     let producers = *rng.pick(&[2usize, 2, 3, 4, 8, 16]);
